@@ -75,6 +75,9 @@ def jobs_for(prop, tier):
 
 
 def extra_backends(prop, tier, seed):
+    import os
+    if os.environ.get('GV_NO_KANI'):
+        return None      # self-tests of the Verus contracts only (never set by the registered commands)
     from . import kani
     hs = kani.harnesses_for(prop, tier)
     return kani.run(hs) if hs else None
